@@ -978,6 +978,8 @@ class CoseContext(AbstractContext):
                     # detach payload
                     msg_dec = cbor2.loads(msg_enc)
                     tgt_blk.setfieldval('btsd', msg_dec[2])
+                    # the parsed form of the plaintext must not be encoded again
+                    tgt_blk.remove_payload()
                     msg_dec[2] = None
 
                 elif keyops.WrapOp in sop.priv_key.key_ops:
@@ -1012,6 +1014,8 @@ class CoseContext(AbstractContext):
                     # detach payload
                     msg_dec = cbor2.loads(msg_enc)
                     tgt_blk.setfieldval('btsd', msg_dec[2])
+                    # the parsed form of the plaintext must not be encoded again
+                    tgt_blk.remove_payload()
                     msg_dec[2] = None
 
                 else:
